@@ -55,6 +55,38 @@ fn apply_ctl_host(op: &str, a: usize, b: usize) {
     }
 }
 
+/// Controller-side call with the host pair named by literal IP address.
+fn apply_ctl_sim_ip(sim: &turmoil::Sim<'_>, op: &str, a: usize, b: usize) {
+    let (a, b) = (sim.lookup(hname(a)), sim.lookup(hname(b)));
+    match op {
+        "partition" => sim.partition(a, b),
+        "partition_oneway" => sim.partition_oneway(a, b),
+        "repair" => sim.repair(a, b),
+        "repair_oneway" => sim.repair_oneway(a, b),
+        "hold" => sim.hold(a, b),
+        "release" => sim.release(a, b),
+        _ => panic!("unknown op {op}"),
+    }
+}
+
+/// Controller-side call with host *sets* named by regex.
+fn apply_ctl_sim_sets(sim: &turmoil::Sim<'_>, op: &str, a: &[usize], b: &[usize]) {
+    let re = |s: &[usize]| {
+        let alt: Vec<String> = s.iter().map(|h| h.to_string()).collect();
+        regex::Regex::new(&format!("^h({})$", alt.join("|"))).unwrap()
+    };
+    let (a, b) = (re(a), re(b));
+    match op {
+        "partition" => sim.partition(a, b),
+        "partition_oneway" => sim.partition_oneway(a, b),
+        "repair" => sim.repair(a, b),
+        "repair_oneway" => sim.repair_oneway(a, b),
+        "hold" => sim.hold(a, b),
+        "release" => sim.release(a, b),
+        _ => panic!("unknown op {op}"),
+    }
+}
+
 fn apply_ctl_sim(sim: &turmoil::Sim<'_>, op: &str, a: usize, b: usize) {
     let (a, b) = (hname(a), hname(b));
     match op {
@@ -120,6 +152,7 @@ struct Run<'a> {
     gmin: u64,
     gmax: u64,
     lover: BTreeMap<(usize, usize), (u64, u64)>,
+    nctl: u64,
 }
 
 struct Cfg {
@@ -183,6 +216,7 @@ impl<'a> Run<'a> {
             gmin: cfg.gmin,
             gmax: cfg.gmax,
             lover: BTreeMap::new(),
+            nctl: 0,
         }
     }
 
@@ -191,8 +225,27 @@ impl<'a> Run<'a> {
     }
 
     fn ctl(&mut self, op: &str, a: usize, b: usize) {
-        apply_ctl_sim(&self.sim, op, a, b);
+        // alternate between naming the hosts by name and by literal address
+        self.nctl += 1;
+        if self.nctl % 2 == 0 {
+            apply_ctl_sim_ip(&self.sim, op, a, b);
+        } else {
+            apply_ctl_sim(&self.sim, op, a, b);
+        }
         rec::emit(json!({"ev":"ctl","op":op,"a":a,"b":b,"by":"ctl"}));
+    }
+
+    /// One call on host sets (regex): documented to act on every pair (x, y), x in a, y in b,
+    /// x != y; recorded as that sequence of pair calls.
+    fn ctl_sets(&mut self, op: &str, a: &[usize], b: &[usize]) {
+        apply_ctl_sim_sets(&self.sim, op, a, b);
+        for &x in a {
+            for &y in b {
+                if x != y {
+                    rec::emit(json!({"ev":"ctl","op":op,"a":x,"b":y,"by":"ctl"}));
+                }
+            }
+        }
     }
 
     fn set_link_latency(&mut self, a: usize, b: usize, v: u64) {
@@ -696,7 +749,20 @@ fn main_random(args: &[String]) {
                         b = a % n + 1;
                     }
                     let op = ops[rng.random_range(0..ops.len())];
-                    run.ctl(op, a, b);
+                    if n >= 3 && rng.random_bool(0.3) {
+                        // host sets by regex: two random non-empty subsets (sorted = registration order)
+                        let pick = |rng: &mut SmallRng| -> Vec<usize> {
+                            let mut v: Vec<usize> = (1..=n).filter(|_| rng.random_bool(0.5)).collect();
+                            if v.is_empty() {
+                                v.push(rng.random_range(1..=n));
+                            }
+                            v
+                        };
+                        let (sa, sb) = (pick(&mut rng), pick(&mut rng));
+                        run.ctl_sets(op, &sa, &sb);
+                    } else {
+                        run.ctl(op, a, b);
+                    }
                     nctl += 1;
                 }
                 if mode == "hold" && rng.random_bool(0.3) {
